@@ -1,12 +1,12 @@
 (* driver for m_strip:
-     strip <fixp> <code points, comma separated | ->   ->  D <items> <literals> | FUEL | STUCK
+     strip <fixp> <fixe> <code points, comma separated | ->   ->  D <items> <literals> | FUEL | STUCK
         items: code point or L<k>, comma separated; literals: ';' separated lists ('-' = empty), '~' = none
      ref <code points>   ->  R <0/1 per character: 1 = literal/comment body> | NONE (f-string prefix present) *)
 let string_of_item = function Ch c -> string_of_n c | Lab k -> "L" ^ string_of_n k
 
 let handle = function
-  | ["strip"; fixp; code] ->
-      (match strip (bool_of_string fixp) (nlist_of_string code) with
+  | ["strip"; fixp; fixe; code] ->
+      (match strip (bool_of_string fixp) (bool_of_string fixe) (nlist_of_string code) with
        | Done (items, lits) ->
            let si = if items = [] then "-" else String.concat "," (List.map string_of_item items) in
            let sl = if lits = [] then "~" else String.concat ";" (List.map string_of_nlist lits) in
